@@ -591,6 +591,12 @@ func (b gsiBlock) bytes() (o []byte) {
 
 // parseDurationSTL parses a STL duration
 func parseDurationSTL(i string, framerate int) (d time.Duration, err error) {
+	// A timecode is made of 8 characters
+	if len(i) != 8 {
+		err = fmt.Errorf("astisub: invalid timecode %q", i)
+		return
+	}
+
 	// Parse hours
 	var hours, hoursString = 0, i[0:2]
 	if hours, err = strconv.Atoi(hoursString); err != nil {
